@@ -1839,6 +1839,18 @@ def resolve_aliases(repo: Repo):
             for par in ast.walk(f.node):
                 for ch in ast.iter_child_nodes(par):
                     ch._parent = par
+    from . import facts as _facts
+    _facts.VOLATILE_ATTRS.clear()
+    for cn, lst in repo.classes.items():
+        for rel, cd in lst:
+            if rel.endswith("_trio.py") or not any(ast.unparse(b).split(".")[-1].endswith("Protocol") for b in cd.bases):
+                continue
+            for m in cd.body:
+                if isinstance(m, (ast.FunctionDef, ast.AsyncFunctionDef)) and m.name not in ("__init__", "__post_init__", "__new__", "connection_made"):      # (connection_made is the protocol's initialiser: called once, first)
+                    for x in ast.walk(m):
+                        if isinstance(x, ast.Attribute) and isinstance(x.ctx, ast.Store) and isinstance(x.value, ast.Name) and x.value.id == "self" \
+                                and isinstance(getattr(x, "_parent", None), (ast.Assign, ast.AnnAssign)):
+                            _facts.VOLATILE_ATTRS.add(x.attr)
     for f in repo.all_funcs:
         al = local_aliases(f.node)
         if not al:
